@@ -88,6 +88,29 @@ theorem C09_bound (cfg : Cfg) (hnd : cfg.nodes.Nodup) (hac : Acyclic cfg) (hm : 
 theorem C09_progress (cfg : Cfg) (hnd : cfg.nodes.Nodup) {tr s} (hr : Run cfg tr s) (hlive : s.pc.live = true) :
     ∃ l s', Step cfg s l s' := TM.C09_progress cfg hnd hr hlive
 
+/-- C09, the build-time cycle check is exact: the constructor's test (`TM.acyclicB`, Kahn peeling) accepts a
+    table whose references stay inside it iff the table is acyclic — so `Acyclic` in `C09_bound` is what the
+    constructor enforces, not an assumption about users. -/
+theorem C09_build_check_exact (cfg : Cfg) (hclosed : ∀ n, n ∉ cfg.nodes → cfg.preds n = []) :
+    acyclicB cfg.nodes cfg.preds = true ↔ Acyclic cfg :=
+  ⟨TM.acyclicB_sound cfg hclosed, TM.acyclicB_complete cfg⟩
+
+/-- C09: every cycle is refused at build time — any non-empty set of nodes of the table each of which has a
+    predecessor in the set (a cycle of any length, a self-loop, a cycle from which no leaf is reachable). -/
+theorem C09_every_cycle_refused (nodes : List Node) (preds : Node → List Node) (c : List Node) (hne : c ≠ [])
+    (hsub : ∀ n ∈ c, n ∈ nodes) (hc : ∀ n ∈ c, ∃ p ∈ preds n, p ∈ c) : acyclicB nodes preds = false :=
+  TM.acyclicB_false_of_cycle nodes preds c hne hsub hc
+
+/-- C09 for every table the constructor accepts, traced or hand-built: at most `32·|nodes| + 12` steps. -/
+theorem C09_accepted_table_terminates (cfg : Cfg) (hnd : cfg.nodes.Nodup)
+    (hclosed : ∀ n, n ∉ cfg.nodes → cfg.preds n = []) (hchk : acyclicB cfg.nodes cfg.preds = true)
+    (hm : 0 < cfg.maxc) {tr s} (hr : Run cfg tr s) : tr.length ≤ 32 * cfg.nodes.length + 12 :=
+  TM.C09_accepted_table_terminates cfg hnd hclosed hchk hm hr
+
+-- non-vacuity: the witness configuration of C08 passes the build check; a terminal 2-cycle below a root does not
+example : acyclicB wcfg.nodes wcfg.preds = true := by decide
+example : acyclicB [0, 1, 2] (fun n => match n with | 1 => [0, 2] | 2 => [1] | _ => []) = false := by decide
+
 /-- C14: after a failure nothing happens any more. -/
 theorem C14_err_terminal {cfg : Cfg} {s l s'} (e : Node) (h : s.pc = .err e) : ¬ Step cfg s l s' :=
   TM.C14_err_terminal e h
